@@ -41,6 +41,7 @@ class Contract:
     may_raise_other: list = field(default_factory=list)  # exception classes allowed without an iff-condition
     lemmas: list = field(default_factory=list)
     feas_timeout_ms: int = 3000    # budget of a path-feasibility query (unknown = feasible, which is sound)
+    assume_in_range: bool = False  # signed C arithmetic results are ASSUMED to fit their type (recorded as an assumption, not proved)
     probe: bool = False            # a unit that probes a known-finding region: its obligations are not counted as proof obligations
 
 
